@@ -196,6 +196,88 @@ func runC16(w *World, r *Report) {
 	}
 
 	// ---- error-arms
+	r.Rule("C16.one-path-per-key", "Option.DesignateNode turns each of its keys into a path of its own: every NewNodePath call in it takes a one-element list whose element is one element of the key list (never the key list itself, which would be ONE nested path k1/k2/…)", 1)
+	{
+		dn := w.Fn("compose", "Option.DesignateNode")
+		nnp := w.Fn("compose", "NewNodePath")
+		var keyP *ssa.Parameter
+		for _, p := range dn.Params {
+			if _, ok := p.Type().Underlying().(*types.Slice); ok {
+				keyP = p
+			}
+		}
+		calls := callsTo(dn, nnp)
+		if len(calls) == 0 || keyP == nil {
+			undecidedf("C16.one-path-per-key: DesignateNode has %d NewNodePath calls", len(calls))
+		}
+		for i, c := range calls {
+			good, det := false, "the argument list is not a fresh one-element list"
+			if sl, ok := c.Common().Args[0].(*ssa.Slice); ok {
+				if al, ok := sl.X.(*ssa.Alloc); ok {
+					if at, ok := al.Type().(*types.Pointer).Elem().Underlying().(*types.Array); ok && at.Len() == 1 {
+						for _, ref := range *al.Referrers() {
+							if ia, ok := ref.(*ssa.IndexAddr); ok {
+								for _, r2 := range *ia.Referrers() {
+									if st, ok := r2.(*ssa.Store); ok {
+										if ld, ok := st.Val.(*ssa.UnOp); ok {
+											if ka, ok := ld.X.(*ssa.IndexAddr); ok && ka.X == ssa.Value(keyP) {
+												good = true
+											}
+										}
+									}
+								}
+							}
+						}
+					}
+				}
+			} else if c.Common().Args[0] == ssa.Value(keyP) {
+				det = "the whole key list is handed to NewNodePath"
+			}
+			inLoop := false
+			for _, li := range naturalLoops(dn) {
+				if li.body[c.Block()] {
+					inLoop = true
+				}
+			}
+			r.Check(good && inLoop, "C16.one-path-per-key", fmt.Sprintf("Option.DesignateNode: NewNodePath call #%d", i+1), c.Pos(), "one key per path, inside the loop over the keys", det+": DesignateNode(a, b) designates the nested node a/b instead of the two nodes a and b — the option reaches neither (or fails the run with 'unknown node'), or reaches a node of a nested graph that was never named")
+		}
+	}
+
+	r.Rule("C16.builder-result-used", "no call of a by-value builder method (value receiver of struct type T returning T: Option.DesignateNode, DesignateNodeWithPath, …) anywhere in the module discards its result: the receiver is a copy, the designation lives only in what is returned", 3)
+	{
+		n := 0
+		for _, fn := range w.RepoFuncs("compose", "schema", "internal", "flow", "callbacks", "components", "utils") {
+			instrs(fn, func(in ssa.Instruction) {
+				c, ok := in.(*ssa.Call)
+				if !ok {
+					return
+				}
+				sc := staticCallee(c)
+				if sc == nil || !w.inRepo(sc) || sc.Signature.Recv() == nil || sc.Signature.Results().Len() != 1 {
+					return
+				}
+				rt := sc.Signature.Recv().Type()
+				if _, isPtr := rt.Underlying().(*types.Pointer); isPtr {
+					return
+				}
+				if _, isStruct := rt.Underlying().(*types.Struct); !isStruct || !types.Identical(rt, sc.Signature.Results().At(0).Type()) {
+					return
+				}
+				n++
+				used := false
+				for _, ref := range *c.Referrers() {
+					if _, dbg := ref.(*ssa.DebugRef); !dbg {
+						used = true
+					}
+				}
+				r.Check(used, "C16.builder-result-used", fmt.Sprintf("%s calls %s", w.fname(fn), w.fname(sc)), c.Pos(), "result used", "the result of a by-value builder is dropped: the statement does nothing — an option meant for one node stays undesignated and is applied to the graph and every node it fits (callbacks of the host node fire for every node, a model option reaches every model)")
+			})
+		}
+		if n < 3 {
+			undecidedf("C16.builder-result-used: only %d calls of by-value builders in the module", n)
+		}
+	}
+
 	r.Rule("C16.error-arms", "empty path / unknown node / sub-path of a component / option type mismatch are error returns", 4)
 	arm := func(name string, pred func(iff *ssa.If) (int, bool)) {
 		found := false
